@@ -315,15 +315,19 @@ pub fn run(args: &Args) -> i32 {
     Prop::C01 | Prop::C02 => { crash_group = true; }
     Prop::C03 | Prop::C04 => {
       cfg.probe = prop == Prop::C03; cfg.bu_over_report = true; cfg.bu_then = true; cfg.bu_twice = true; cfg.bu_pre = true; cfg.max_roots = if quick { 1 } else { 2 };
+      // named shapes and the transitive template family with two roots per session (creation orders need them)
+      groups[0].shapes = false;
+      groups.push(Group { enums: vec![], depth: 4, shapes: true, gen_consumer_only: false, crashes: 0, inject: false, max_roots: Some(2), faulty: false, slice: None, families: false });
       if quick { groups[0].depth = 4; groups[1] = Group { enums: vec![s(3, 2, 2)], depth: 4, shapes: false, gen_consumer_only: false, crashes: 0, inject: false, max_roots: None, faulty: false, slice: None, families: false }; }
       // coarse read checkers next to exact ones on one task (a reported change that one checker ignores and another sees)
       groups.push(Group { enums: vec![rich(2, 2, 2)], depth: 5, shapes: false, gen_consumer_only: false, crashes: 0, inject: false, max_roots: None, faulty: false, slice: None, families: false });
       if !quick { groups.push(Group { enums: vec![s(2, 2, 5)], depth: 3, shapes: false, gen_consumer_only: true, crashes: 0, inject: false, max_roots: None, faulty: false, slice: None, families: false }); }
+      // (the require-structure family first: it is a subset of the next group and must keep its own, deeper, bound)
+      groups.push(Group { enums: vec![if quick { nw(3, 1, 4) } else { nw(3, 1, 5) }], depth: 4, shapes: false, gen_consumer_only: false, crashes: 0, inject: false, max_roots: Some(2), faulty: false, slice: None, families: false });
       // three tasks, one resource: a task with two dependents of different kinds (requirer + dynamic requirer / reader)
       groups.push(Group { enums: vec![{ let mut e = s(3, 1, 4); e.guard_vals = vec![1]; e.srcs = vec![Src::Acc]; e }], depth: if quick { 3 } else { 4 }, shapes: false, gen_consumer_only: false, crashes: 0, inject: false, max_roots: Some(2), faulty: false, slice: None, families: false });
       // coarse write checkers: only the checker-relative oracles apply there (no from-scratch content comparison)
       groups.push(Group { enums: vec![cw(2, 2, 4)], depth: 4, shapes: false, gen_consumer_only: true, crashes: 0, inject: false, max_roots: None, faulty: false, slice: None, families: false });
-      groups.push(Group { enums: vec![if quick { nw(3, 1, 4) } else { nw(3, 1, 5) }], depth: 4, shapes: false, gen_consumer_only: false, crashes: 0, inject: false, max_roots: None, faulty: false, slice: None, families: false });
       if !quick { groups.push(Group { enums: vec![nw(4, 1, 5)], depth: 4, shapes: false, gen_consumer_only: false, crashes: 0, inject: false, max_roots: None, faulty: false, slice: None, families: false }); }
       groups.push(Group { enums: vec![if quick { sf(4, 2) } else { sf(4, 3) }], depth: 4, shapes: false, gen_consumer_only: false, crashes: 0, inject: false, max_roots: Some(2), faulty: false, slice: None, families: false });
       if !quick { groups[0].depth = 5; groups[1].depth = 4; groups[2].depth = 3; }
